@@ -114,6 +114,9 @@ class Shim(object):
         self.pfaults = plan.get('pfaults') or []
         self.step_budget = plan.get('step_budget')
         self.listdir_rng = None
+        # directories (on different virtual volumes) whose inode NUMBERS
+        # coincide, as happens on freshly made file systems
+        self.same_ino = set(plan.get('same_ino') or ())
         if plan.get('listdir_seed') is not None:
             import random
             self.listdir_rng = random.Random(plan['listdir_seed'])
@@ -383,6 +386,16 @@ class Shim(object):
                 pass
         elif name == 'close':
             self.fds.pop(a[0] if a else None, None)
+        elif name in ('stat', 'lstat') and self.same_ino and paths and \
+                paths[0] in self.same_ino:
+            try:
+                c_, (t_, d_) = r.__reduce__()
+                t_ = list(t_)
+                t_[1] = 2
+                d_ = dict(d_)
+                r = c_(tuple(t_), d_)
+            except Exception:
+                pass
         elif name == 'listdir' and self.listdir_rng is not None \
                 and paths and paths[0] and self._under(paths[0], self.root):
             r = list(r)
@@ -658,7 +671,8 @@ def install(root, mounts, uid, plan, logfd):
         posixpath.ismount = sh.ismount
     if uid is not None:
         os.getuid = lambda: uid
-        os.geteuid = lambda: uid
+        euid = plan.get('euid')
+        os.geteuid = (lambda: uid) if euid is None else (lambda: euid)
     # psutil: the virtual table is the list of (physical) partitions
     if not plan.get('keep_psutil'):
         try:
